@@ -197,12 +197,13 @@ CHECKS = {
         {"faults_fired": 3000, "sites": 2000, "failed_starts": 1500, "restarts_checked": 1500, "natural_checked": 50},
         config="asan-nd", assumptions=KERNEL_TRUST + ["faults are injected at the libc boundary (a call returns -1/errno without being performed; close is performed first; waitpid/ECHILD is performed first)"]),
     "C05": scen_check(
-        "eng_fault", "fault_enumeration",
+        [("eng_fault", "asan-nd"), ("eng_ident", "asan")], "fault_enumeration",
         "same campaign as C04 with the ownership ledger as oracle: every pipe/open/dup the library makes is owned, every "
         "close/free must hit an owned object exactly once, at the end of start/pid/start/terminate/kill/wait/destroy nothing "
         "may be owned, the /proc/self/fd table must equal the one before reproc_new, no child of the runner may be left and "
-        "every user-supplied handle/FILE/standard stream must still be open; non-trivial = fault fired or fault-free scenario",
-        {"ledger_checks": 3000, "faults_fired": 3000, "sites": 2000}, config="asan-nd", assumptions=KERNEL_TRUST),
+        "every user-supplied handle/FILE/standard stream must still be open; the same ledger oracle also runs (fault-free) over "
+        "all 262 redirect configurations x 9 descriptor situations of C10; non-trivial = fault fired or fault-free scenario",
+        {"ledger_checks": 3000, "faults_fired": 3000, "sites": 2000, "config_ledger_checks": 2000}, assumptions=KERNEL_TRUST),
     "C12": scen_check(
         "eng_fault", "fault_enumeration",
         "same campaign with random initial signal masks and dispositions (default/ignore/handler for SIGINT, SIGUSR1, SIGUSR2): "
@@ -223,7 +224,7 @@ CHECKS = {
         "the parent opens 1-300 extra descriptors (files, pipes, sockets; half without close-on-exec) at random numbers up to "
         "limit-1 (always including limit-1 in a third of the cases) under RLIMIT_NOFILE in {64,256,1024,4096,20000}, with 8 "
         "redirect families and closed std descriptors; the helper lists /proc/self/fd before opening anything; non-trivial = "
-        "a child reported its table (concurrent starts from threads are exercised by C20's engine)",
+        "a child reported its table; every case draws its own descriptor set, so distinct = cases (concurrent starts from threads are exercised by C20's engine)",
         {"children_checked": 600, "noncloexec_extra": 2000, "limit_minus_1_cases": 100, "limits": 3}, assumptions=KERNEL_TRUST),
     "C03": scen_check(
         "eng_ident", "exploration",
